@@ -116,6 +116,21 @@ class Histories(Facet):
 
             rec.label(f"objectives={case['objectives']}", "fields:" + case["fields"], f"extra={case['n_extra']}", "best-only" if case["only_best"] else "record-all")
             rec.sample(case, limit=2)
+            # a differently configured log written earlier in the same process must not influence this one
+            k0 = 1 + case["objectives"] % 4
+            prelude = {**case, "objectives": k0, "force_multi": True, "minimize": [False] * k0, "n_extra": (case["n_extra"] + 2) % 4,
+                       "values": [[1] * k0, [2] * k0], "batches": [1, 1], "only_best": False}
+            fd0, p0 = tempfile.mkstemp(prefix="vk_c20p_", suffix=".csv")
+            os.close(fd0)
+            try:
+                reference_run(prelude, p0)
+            except Exception:  # noqa: BLE001 - judged when it is the main case
+                pass
+            finally:
+                try:
+                    os.unlink(p0)
+                except OSError:
+                    pass
             try:
                 header, rows, flags = reference_run(case, path, observe)
             except Exception as e:  # noqa: BLE001
